@@ -506,6 +506,12 @@ class Interp:
                 return a.t == b.t
             if a.cell is b.cell:
                 return z3.BoolVal(True)
+            if isinstance(a.ty, TMap) and isinstance(b.ty, TMap) and a.ty.sort() == b.ty.sort() and not isinstance(a.ty.v, (TMap, TSet)):
+                # dict equality: same keys, equal values on them
+                s_, mk, accs = a.ty.parts()
+                k = z3.Const("mapeq_k", a.ty.k.sort())
+                return z3.And(accs[0](a.t) == accs[0](b.t),
+                              z3.ForAll([k], z3.Implies(z3.Select(accs[0](a.t), k), z3.Select(accs[1](a.t), k) == z3.Select(accs[1](b.t), k))))
             raise Unsupported("equality of z3 maps")
         if isinstance(a, ZVal) and isinstance(a.ty, TSeq) and isinstance(b, (STuple, SList)):
             return a.t == unwrap(a.ty, b)
